@@ -140,7 +140,7 @@ def balance(job, kind, mode, tier):
     # ... nor about the type a number arrives in: a whole number of hours, kilograms or square metres given as an int is the same
     # quantity as the float (the library's own tests pass integer step lengths); labelled concrete points as well
     if mode == "vac" or tier == "thorough":
-        for (N, dt, m0, A) in ((4, 1, 12.5, 0.04155), (3, 2, 7, 1)):
+        for (N, dt, m0, A) in ((4, 1, 12.5, 0.04155), (3, 2, 70, 1)):
             inp = dict(realrun.proc_fallback(mode)[0], kind=kind, mode=mode, N=N, dt=dt, A=A, m0=m0, basis="weight")
             job.refute_concretely("C01/integer_inputs/%s/%s/N%d_dt%r_m%r_A%r" % (proc.SHORT[kind], mode, N, dt, m0, A), R_, inp)
 
